@@ -143,10 +143,21 @@ func rangesOf(v interface{}, path string) []RRange {
 		}
 	case reference.Targets:
 		targets(x)
+		// ... and as a caller's state store would keep them
+		func() {
+			defer func() { _ = recover() }()
+			targets(x.Copy())
+		}()
 	case reference.Origins:
 		for _, o := range x {
 			add(o.OriginRange(), path, "origin range")
 		}
+		func() {
+			defer func() { _ = recover() }()
+			for _, o := range x.Copy() {
+				add(o.OriginRange(), path, "origin range of a copy")
+			}
+		}()
 	case decoder.ReferenceTargets:
 		for _, t := range x {
 			if t == nil {
